@@ -224,10 +224,11 @@ PROPS["C16"] = {
     "units": [
         rapid("store-model", "token", "TestVerif_C16_StoreModel", 800, 6000),
         rapid("racing-editors", "token", "TestVerif_C16_RacingEditors", 100, 800),
+        rapid("api-token-sequences", "webserver", "TestVerif_C16_ApiTokenSequences", 200, 1500, shards=8, quick_shards=4),
         crash("crash-points", "token", "token", 4, 50),
         crash("fault-points", "token", "token", 4, 40, mode="fault"),
     ],
-    "technique": "model-based stateful property testing (rapid) with a fresh-reader differential, racing conditional editors, crash-point enumeration with strace fault injection",
+    "technique": "model-based stateful property testing (rapid) with a fresh-reader differential (library and HTTP API), racing conditional editors, crash-point and fault-point enumeration with strace fault injection",
     "assumptions": ["process crashes at syscall boundaries only; the token writer does not fsync, durability across power loss is not claimed",
                     "equal-size-equal-mtime versions are indistinguishable to the store; they are counted, not judged"],
 }
